@@ -49,10 +49,11 @@ type c09Case struct {
 	arr      string
 	excl     string // "", "b", "z"
 	nonrec   bool   // -d instead of -r: only the top directory is transferred
+	dirform  bool   // source named without trailing slash: dest/src/ is the transferred directory
 }
 
 func (c c09Case) String() string {
-	return fmt.Sprintf("top-extraneous=%06b sub-extraneous=%05b kinds=%d delete=%v ioerr=%v arr=%s exclude=%q nonrecursive=%v", c.top, c.sub, c.kinds, c.del, c.ioerr, c.arr, c.excl, c.nonrec)
+	return fmt.Sprintf("top-extraneous=%06b sub-extraneous=%05b kinds=%d delete=%v ioerr=%v arr=%s exclude=%q nonrecursive=%v source-without-slash=%v", c.top, c.sub, c.kinds, c.del, c.ioerr, c.arr, c.excl, c.nonrec, c.dirform)
 }
 
 func bits(n int) int {
@@ -264,11 +265,20 @@ func c09Run(c c09Case) core.Result {
 		return res
 	}
 	dst := filepath.Join(dir, "dst")
-	if err := dstT.Materialise(dst); err != nil {
+	inner := dst // the transferred directory
+	siblings := tm.Tree{tm.File("sibling-file", []byte("outside the transferred directory"), 0o644, tm.Past), tm.D("sibling-dir", 0o755, tm.Past), tm.File("sibling-dir/x", []byte("x"), 0o644, tm.Past), tm.File("a", []byte("same name as a listed file, one level up"), 0o644, tm.Past)}
+	if c.dirform {
+		inner = filepath.Join(dst, "src")
+		if err := siblings.Materialise(dst); err != nil {
+			res.Inconcl = err.Error()
+			return res
+		}
+	}
+	if err := dstT.Materialise(inner); err != nil {
 		res.Inconcl = err.Error()
 		return res
 	}
-	before, _ := tm.Snapshot(dst, false)
+	before, _ := tm.Snapshot(inner, false)
 	cb, _ := tm.Snapshot(filepath.Join(dir, "canary"), false)
 	args := []string{"-rlt"}
 	if c.nonrec {
@@ -281,6 +291,9 @@ func c09Run(c c09Case) core.Result {
 		args = append(args, "--exclude="+c.excl)
 	}
 	sources := []string{"src/"}
+	if c.dirform {
+		sources = []string{"src"}
+	}
 	if c.ioerr {
 		// a second source argument that does not exist raises the sender's I/O error flag
 		sources = append(sources, "vanished/")
@@ -294,8 +307,21 @@ func c09Run(c c09Case) core.Result {
 		res.Fail = core.Fail("session_failed", out.ErrString()+" | "+tail(out.Stderr, 300), "arr", c.arr, "ioerr", fmt.Sprint(c.ioerr))
 		return res
 	}
-	after, _ := tm.Snapshot(dst, false)
+	after, _ := tm.Snapshot(inner, false)
 	ca, _ := tm.Snapshot(filepath.Join(dir, "canary"), false)
+	if c.dirform {
+		all, _ := tm.Snapshot(dst, false)
+		var outside tm.Tree
+		for _, e := range all {
+			if e.Path != "src" && !strings.HasPrefix(e.Path, "src/") {
+				outside = append(outside, e)
+			}
+		}
+		if d := tm.Diff(siblings, outside, tm.Fields{}); len(d) > 0 {
+			res.Fail = core.Fail("deleted_outside_transferred_directory", fmt.Sprintf("%s: entries next to the transferred directory changed: %s", c, trunc(strings.Join(d, " ; "), 400)), "arr", c.arr, "delete", fmt.Sprint(c.del))
+			return res
+		}
+	}
 	if f := c09Judge(c, before, after, cb, ca); f != nil {
 		res.Fail = f
 		return res
@@ -341,6 +367,9 @@ func c09BuildReal(tier string) core.Source {
 									continue
 								}
 								cases = append(cases, c09Case{top: top, sub: sub, kinds: kinds, del: del, ioerr: ioerr, arr: arr, excl: excl})
+								if !ioerr && !strings.HasSuffix(excl, "/") && (tier == "thorough" || (top+3*sub)%5 == 1) {
+									cases = append(cases, c09Case{top: top, sub: sub, kinds: kinds, del: del, arr: arr, excl: excl, dirform: true})
+								}
 								if !ioerr && !strings.HasSuffix(excl, "/") && (tier == "thorough" || (top+2*sub)%5 == 0) {
 									cases = append(cases, c09Case{top: top, sub: sub, kinds: kinds, del: del, arr: arr, excl: excl, nonrec: true})
 								}
